@@ -148,9 +148,15 @@ def check(case):
     try:
         with quiet:
             r = m.fit(Xin, yin, sample_weight=win)
-    except ValueError as e:
-        if w is not None and (w == 0).any() and "at least one non-zero" in str(e):
-            # a bucket (or a discretizer) whose rows all weigh zero: the inner scikit-learn estimator refuses such a training set itself
+    except Exception as e:  # noqa: BLE001
+        # a bucket (or a discretizer) whose rows all weigh zero: the inner scikit-learn estimator refuses such a training set itself; with
+        # verbose=True joblib's progress printing may fail in turn while that refusal propagates (AttributeError / IndexError raised in
+        # joblib with the refusal as its context)
+        chain, cur = [], e
+        while cur is not None and len(chain) < 6:
+            chain.append(cur)
+            cur = cur.__cause__ or cur.__context__
+        if w is not None and (w == 0).any() and any(isinstance(x, ValueError) and "at least one non-zero" in str(x) for x in chain):
             return Outcome(["inner-estimator-refuses-all-zero-weights"], False)
         raise
     require(r is m, "fit:not-self", "", facts)
